@@ -82,7 +82,7 @@ func cmdCheck(args []string) int {
 	only := fs.String("func", "", "only this function (debug)")
 	verbose := fs.Bool("v", false, "verbose")
 	verifDir := fs.String("verif", "/verif", "verif dir")
-	timeout := fs.Int("timeout", 20, "solver timeout (s)")
+	timeout := fs.Int("timeout", 30, "solver timeout (s)")
 	fs.Parse(args)
 	t0 := time.Now()
 	genTier = *tier
@@ -108,7 +108,7 @@ func cmdCheck(args []string) int {
 		}
 		genInstances = insts
 		lo.Overlay = ov
-		lo.Patterns = pats
+		lo.Patterns = append(pats, patterns...)
 	}
 	prog, err := loadProgram(lo)
 	if err != nil {
@@ -185,13 +185,15 @@ func propConfig(id, verifDir string) PropConfig {
 		return PropConfig{Pkgs: []string{"./protogen"}, ExtSpecs: ext}
 	case "C22", "C23":
 		return PropConfig{Pkgs: []string{"./gnmidiff"}, ExtSpecs: ext}
-	case "C15", "C34", "C33", "C17":
+	case "C15", "C34", "C33":
 		return PropConfig{Gen: true, ExtSpecs: ext}
+	case "C17":
+		return PropConfig{Gen: true, Pkgs: []string{"./ygot", "./ytypes"}, ExtSpecs: ext}
 	case "C24":
 		return PropConfig{Pkgs: []string{"./protomap"}, ExtSpecs: ext}
 	case "C07":
 		return PropConfig{Pkgs: []string{"./util", "./ytypes"}, ExtSpecs: ext}
-	case "C05":
+	case "C05", "C03", "C29", "C32":
 		return PropConfig{Pkgs: []string{"./ygot"}, ExtSpecs: ext}
 	case "C16", "C19":
 		return PropConfig{Pkgs: []string{"./ygot", "./ytypes"}, ExtSpecs: ext}
